@@ -301,9 +301,14 @@ impl Iterator for MoveGen {
 
     /// Find the next chess move.
     fn next(&mut self) -> Option<ChessMove> {
-        if self.index >= self.moves.len()
-            || self.moves[self.index].bitboard & self.iterator_mask == EMPTY
+        // skip entries with nothing left under the mask (exhausted, or emptied by
+        // remove_mask / remove_move)
+        while self.index < self.moves.len()
+            && self.moves[self.index].bitboard & self.iterator_mask == EMPTY
         {
+            self.index += 1;
+        }
+        if self.index >= self.moves.len() {
             // are we done?
             None
         } else if self.moves[self.index].promotion {
